@@ -25,6 +25,7 @@ pub enum Req {
     W,  // wrong content type
     S,  // well-formed but semantically invalid (dangling reference): the handler panics in the loader
     S2, // loads fine but makes the solver itself panic (absurd cost coefficient: overflow guard in the flow model)
+    Vb, // valid solve, instance y written over a network of 460 further locations: a request body above 2 MiB
 }
 
 impl Req {
@@ -37,6 +38,7 @@ impl Req {
             Req::W => "wrong-content-type",
             Req::S => "semantically-invalid",
             Req::S2 => "solver-panics",
+            Req::Vb => "solve(big)",
         }
     }
     fn from_name(s: &str) -> Option<Req> {
@@ -44,7 +46,7 @@ impl Req {
     }
 }
 
-const ALPHABET: [Req; 7] = [Req::H, Req::Vx, Req::Vy, Req::M, Req::W, Req::S, Req::S2];
+const ALPHABET: [Req; 8] = [Req::H, Req::Vx, Req::Vy, Req::M, Req::W, Req::S, Req::S2, Req::Vb];
 
 /// prefix every identifier so that two instances share no id
 fn prefix_ids(v: &Value, p: &str, key: Option<&str>) -> Value {
@@ -64,6 +66,7 @@ pub struct Bodies {
     pub y: Value,
     pub s: Value,
     pub s2: Value,
+    pub big: Value,
 }
 
 pub fn bodies() -> Bodies {
@@ -75,7 +78,28 @@ pub fn bodies() -> Bodies {
     // every reference resolves, but a cost coefficient of 10^15 trips the flow model's overflow guard
     let mut s2 = y.clone();
     s2["parameters"]["costs"]["serviceTrip"] = json!(1_000_000_000_000_000u64);
-    Bodies { x, y, s, s2 }
+    // instance y in a network with 460 further locations no trip touches: the dead-head matrices make the
+    // body larger than 2 MiB (the default body limit of the web framework, which the server switches off)
+    let mut big = y.clone();
+    let extra = 460usize;
+    let n0 = big["locations"].as_array().unwrap().len();
+    for i in 0..extra {
+        let id = format!("y_X{}", i);
+        big["locations"].as_array_mut().unwrap().push(json!({"id": id}));
+        big["deadHeadTrips"]["indices"].as_array_mut().unwrap().push(json!(id));
+    }
+    for key in ["durations", "distances"] {
+        let fill = if key == "durations" { 3600 } else { 60000 };
+        let m = big["deadHeadTrips"][key].as_array_mut().unwrap();
+        for row in m.iter_mut() {
+            row.as_array_mut().unwrap().extend((0..extra).map(|_| json!(fill)));
+        }
+        for i in 0..extra {
+            m.push(json!((0..n0 + extra).map(|j| if j == n0 + i { 0 } else { fill }).collect::<Vec<_>>()));
+        }
+    }
+    assert!(big.to_string().len() > 2 * 1024 * 1024 + 4096);
+    Bodies { x, y, s, s2, big }
 }
 
 pub struct Server {
@@ -258,6 +282,10 @@ fn send(port: u16, b: &Bodies, r: Req, gate: Option<&str>) -> (Result<Resp, Stri
             let body = with_gate(&b.y);
             (request(port, "POST", "/solve", Some("application/json"), Some(&body.to_string()), t), Some(b.y.clone()))
         }
+        Req::Vb => {
+            let body = with_gate(&b.big);
+            (request(port, "POST", "/solve", Some("application/json"), Some(&body.to_string()), t), Some(b.big.clone()))
+        }
         Req::M => (request(port, "POST", "/solve", Some("application/json"), Some("{\"vehicleTypes\": ["), t), None),
         Req::W => (request(port, "POST", "/solve", Some("text/plain"), Some(&b.x.to_string()), t), None),
         Req::S => {
@@ -278,7 +306,7 @@ fn judge(r: Req, resp: &Result<Resp, String>, input: &Option<Value>) -> Vec<Stri
             Ok(x) if x.status == 200 && x.body.trim() == "Healthy" => vec![],
             other => vec![format!("health request answered {:?}", other.as_ref().map(|x| (x.status, x.body.chars().take(40).collect::<String>())))],
         },
-        Req::Vx | Req::Vy => check_answer(input.as_ref().unwrap(), resp),
+        Req::Vx | Req::Vy | Req::Vb => check_answer(input.as_ref().unwrap(), resp),
         Req::M | Req::W => match resp {
             Ok(x) if (400..500).contains(&x.status) => vec![],
             other => vec![format!("{} request must get a 4xx answer, got {:?}", r.name(), other.as_ref().map(|x| x.status))],
